@@ -128,7 +128,7 @@ def check_order(prop, path):
     return [prop] + others
 
 def worker(wid, q, out, lock):
-    wt = '/tmp/automut_wt%d' % wid
+    wt = '/tmp/automut_%d_wt%d' % (os.getpid(), wid)
     sh('git -C /repo worktree remove --force %s' % wt)
     r = sh('git -C /repo worktree add --detach %s HEAD' % wt)
     if r.returncode != 0:
@@ -157,7 +157,7 @@ def worker(wid, q, out, lock):
                     rec['status'] = 'SURVIVED'
                     for cp in check_order(prop, path):
                         c = sh('./check %s quick' % cp, cwd=ROOT, timeout=3600,
-                               extra={'VERIF_REPO': wt, 'VERIF_INSTANCE': 'am%d' % wid, 'VERIF_EVIDENCE_DIR': '/tmp/automut_ev%d' % wid})
+                               extra={'VERIF_REPO': wt, 'VERIF_INSTANCE': 'am%d_%d' % (os.getpid(), wid), 'VERIF_EVIDENCE_DIR': '/tmp/automut_ev%d_%d' % (os.getpid(), wid)})
                         viol = [l for l in c.stdout.splitlines() if l.startswith('VIOLATION')]
                         mons = sorted(set(l.split('monitor=')[1].split()[0] for l in viol if 'monitor=' in l))
                         rec['checks'][cp] = {'exit': c.returncode, 'monitors': mons}
@@ -178,7 +178,7 @@ def worker(wid, q, out, lock):
             os.makedirs(os.path.join(ROOT, 'mutants', 'auto'), exist_ok=True)
             json.dump(out[prop], open(os.path.join(ROOT, 'mutants', 'auto', '%s.s%d.json' % (prop, SEED)), 'w'), indent=1)
     sh('git -C /repo worktree remove --force %s' % wt)
-    sh('rm -rf /tmp/automut_ev%d' % wid)
+    sh('rm -rf /tmp/automut_ev%d_%d' % (os.getpid(), wid))
 
 
 def main():
